@@ -64,6 +64,12 @@ def callables(spec, tier):
             kwd = {kw: 2} if kw else {}
             out.append(('partial(f%s%s)' % (''.join(', %d' % a for a in args), ', %s=2' % kw if kw else ''),
                         functools.partial(f2, *args, **kwd), f2.CALLS))
+            if kw and (npos or tier == 'thorough'):
+                # the same partial with the keyword fixed to None / 0: a value is a value, whatever its truth
+                for val in (None, 0):
+                    f3 = plain.compile()
+                    out.append(('partial(f%s, %s=%r)' % (''.join(', %d' % a for a in args), kw, val),
+                                functools.partial(f3, *args, **{kw: val}), f3.CALLS))
     return out
 
 
